@@ -290,6 +290,15 @@ Theorem wait_timeout_nonnegative : forall fuel ops, forallb op_okb ops = true ->
 Proof. exact wait_nonneg_l. Qed.
 Print Assumptions wait_timeout_nonnegative.
 
+(* the combined timer liveness statement of one iteration: when the head of an iteration (timer phase + closing pass) is not cut off by fuel,
+   NO queue entry is due at the sampled now any more (tlag counts, over the entries due at now, 1 + the missed intervals) - every live timer
+   that was due at the sampled now has been activated in this iteration, as often as it was due; with wait_timeout_nonnegative and
+   timer_wait_not_past_due: the loop then waits no longer than until the next due time, and not without limit *)
+Theorem iteration_leaves_nothing_due : forall f s, SInv s -> Env s -> stuck s = false -> stuck (head_state f s) = false ->
+  tlag (clk s) (head_state f s) = 0%nat.
+Proof. exact head_state_nothing_due. Qed.
+Print Assumptions iteration_leaves_nothing_due.
+
 Theorem wait_monitor_accepts : forall fuel ops, forallb op_okb ops = true -> is_some (wmon_run (trace (steps fuel init ops))) = true.
 Proof. exact wmon_accepts_l. Qed.
 Print Assumptions wait_monitor_accepts.
